@@ -35,7 +35,7 @@ type c09Upd struct {
 }
 
 type c09Op struct {
-	Kind    int  // 0 deliver update U to witness W; 1 holder restart of W; 2 prepend [P..L] to update U
+	Kind    int // 0 deliver update U to witness W; 1 holder restart of W; 2 prepend [P..L] to update U
 	W, U    int
 	Fresh   bool // deliver a fresh object for U's window instead of the shared one
 	P, L    int
